@@ -8,6 +8,8 @@
 import Synphot.Lemmas.ObsPhot
 import Synphot.Lemmas.Trapz
 import Synphot.Lemmas.Units
+import Synphot.Lemmas.C09x
+import Synphot.Lemmas.TranscReal
 
 set_option linter.unusedSectionVars false
 set_option linter.unusedVariables false
@@ -17,13 +19,9 @@ namespace Synphot.C09
 open Synphot
 variable {K : Type} [Field K] [LinearOrder K] [IsStrictOrderedRing K]
 
-/-- samples `(λ, λ·f(λ))` of a list of `(λ, f)` pairs -/
-def timesLam (l : List (K × K)) : List (K × K) := l.map fun p => (p.1, p.1 * p.2)
-/-- samples `(λ, f(λ)/λ)` -/
-def overLam (l : List (K × K)) : List (K × K) := l.map fun p => (p.1, p.2 / p.1)
-
-/-- the FLAM effective stimulus: `|∫ λ F_λ P| / |∫ λ P|` on the sampling grid (what the code forms) -/
-def effstimFlam (obsFlam band : List (K × K)) : K := |trapz (timesLam obsFlam)| / |trapz (timesLam band)|
+/- `timesLam`, `overLam`, `effstimFlam` (the list forms `(λ, λ·f)`, `(λ, f/λ)` and `|∫λF_λP| / |∫λP|`) and the
+other list forms used below (`toFlam`, `efflamOf`, `pivotOf`, `effstimOf`, `scaleY`, `efflamGrid`,
+`efflamSamples`) are defined in `Lemmas/C09x.lean`. -/
 
 /-- the effective stimulus in FLAM is exactly that quotient, and an error if either integral is not positive -/
 theorem effstim_flam_def (E : Env K) (thr atol rtol : K) (o : Obs K) (bm : Tree K) (xb yb inw inp inf : List K)
@@ -169,5 +167,667 @@ theorem efflam_in_range (l : List (K × K)) (lo hi : K) (hx : AscX l)
   constructor
   · rw [le_div_iff₀ hden]; exact hb.1
   · rw [div_le_iff₀ hden]; exact hb.2
+
+/-! ## second round: every unit, the model end to end -/
+
+section round2
+
+/-! ### the defining computation in every density unit -/
+
+/-- [definition, every density unit, any `wavelengths`] `effstim` samples the bandpass and the observation
+(`xb, yb`, `inw, inp`) and returns `effstimOf` of them: errors if `|∫λF_λ|` or `|∫λP|` is not positive, else
+the FLAM quotient itself (FLAM), its magnitude over the ST zero point (STmag), or its conversion at the
+pivot wavelength (every other density unit).  Every failing stage fails the call with that stage's error. -/
+theorem effstim_density_def (E : Env K) (thr atol rtol : K) (o : Obs K) (u : FluxUnit K) (hu : IsDensity u)
+    (wl : Option (List K)) (area : Option K) (vega : Option (Tree K)) :
+    effstim E thr atol rtol o u wl area vega =
+      (o.band.model >>= fun bm => wavelengthsOr thr bm wl >>= fun xb => sampleTree E bm xb >>= fun yb =>
+        wavelengthsOr thr o.model wl >>= fun inw => sampleTree E o.model inw >>= fun inp =>
+          effstimOf E thr bm u (inw.zip inp) (xb.zip yb)) :=
+  effstim_pipeline E thr atol rtol o u hu wl area vega
+
+example : IsDensity (FluxUnit.jy (1 / 1000 : ℚ)) := IsDensity.jy _
+
+/-- the pivot wavelength on the native sampling set: `sqrt |∫Pλ / ∫P/λ|` (0 when `∫P/λ = 0`) -/
+theorem pivot_def (E : Env K) (thr : K) (bm : Tree K) (xb yb : List K)
+    (hxb : wavesetOrErr thr bm = .ok xb) (hyb : sampleTree E bm xb = .ok yb) :
+    pivot E thr bm none = .ok (if trapz (overLam (xb.zip yb)) = 0 then 0
+      else E.T.sqrt |trapz (timesLam (xb.zip yb)) / trapz (overLam (xb.zip yb))|) :=
+  pivot_eq E thr bm xb yb hxb hyb
+
+example (E : Env K) (thr : K) :
+    pivot E thr Witness.band none = .ok (E.T.sqrt |(6 : K) / (3 / 4)|) := by
+  rw [pivot_def E thr _ _ _ (Witness.band_waveset thr) (Witness.band_samples E), Witness.band_A, Witness.band_B,
+    if_neg (by norm_num)]
+
+/-- a successful FLAM effective stimulus is positive -/
+theorem effstim_flam_pos (E : Env K) (thr atol rtol : K) (o : Obs K) (wl : Option (List K)) (v : K)
+    (hv : effstim E thr atol rtol o .flam wl none none = .ok v) : 0 < v := by
+  rw [effstim_pipeline E thr atol rtol o .flam IsDensity.flam] at hv
+  simp only [bind, Except.bind] at hv
+  cases h1 : o.band.model with
+  | error e => rw [h1] at hv; cases hv
+  | ok bm =>
+    rw [h1] at hv; simp only [] at hv
+    cases h2 : wavelengthsOr thr bm wl with
+    | error e => rw [h2] at hv; cases hv
+    | ok xb =>
+      rw [h2] at hv; simp only [] at hv
+      cases h3 : sampleTree E bm xb with
+      | error e => rw [h3] at hv; cases hv
+      | ok yb =>
+        rw [h3] at hv; simp only [] at hv
+        cases h4 : wavelengthsOr thr o.model wl with
+        | error e => rw [h4] at hv; cases hv
+        | ok inw =>
+          rw [h4] at hv; simp only [] at hv
+          cases h5 : sampleTree E o.model inw with
+          | error e => rw [h5] at hv; cases hv
+          | ok inp =>
+            rw [h5] at hv; simp only [effstimOf] at hv
+            split_ifs at hv with ha hb
+            injection hv with hv
+            rw [← hv]
+            exact div_pos (not_le.mp ha) (not_le.mp hb)
+
+/-- STmag: the magnitude of the FLAM value over the ST zero-point flux (no wavelength enters) -/
+theorem effstim_stmag_def (E : Env K) (thr atol rtol : K) (o : Obs K) (wl : Option (List K)) :
+    effstim E thr atol rtol o .stmag wl none none =
+      (effstim E thr atol rtol o .flam wl none none >>= fun val => toMag E.T (val / E.P.stZero)) := by
+  rw [effstim_pipeline E thr atol rtol o .stmag IsDensity.stmag,
+    effstim_pipeline E thr atol rtol o .flam IsDensity.flam]
+  simp only [bind, Except.bind]
+  cases o.band.model <;> simp only []
+  rename_i bm
+  cases wavelengthsOr thr bm wl <;> simp only []
+  rename_i xb
+  cases sampleTree E bm xb <;> simp only []
+  cases wavelengthsOr thr o.model wl <;> simp only []
+  rename_i inw
+  cases sampleTree E o.model inw <;> simp only []
+  unfold effstimOf
+  split_ifs <;> rfl
+
+/-- … which is also the FLAM value converted to STmag at any non-zero wavelength, in particular at the
+bandpass pivot: with `effstim_converted_at_pivot` every density unit is "FLAM converted at the pivot" -/
+theorem effstim_stmag_converted_at_pivot (E : Env K) (hP : E.P.Pos) (thr atol rtol : K) (o : Obs K) (v wp : K)
+    (hv : effstim E thr atol rtol o .flam none none none = .ok v) (hwp : wp ≠ 0) :
+    effstim E thr atol rtol o .stmag none none none = convertOne E.P E.T (plainSamp wp) .flam .stmag v := by
+  rw [effstim_stmag_def, hv, convert_flam_stmag hP wp v hwp]; rfl
+
+/-! ### the value in each unit (`v` the FLAM value, `wp` the pivot wavelength) -/
+
+/-- PHOTLAM: `v·λ_p/(hc)` -/
+theorem effstim_photlam_value (E : Env K) (thr atol rtol : K) (o : Obs K) (v wp : K) (bm : Tree K)
+    (hbm : o.band.model = .ok bm) (hv : effstim E thr atol rtol o .flam none none none = .ok v)
+    (hp : pivot E thr bm none = .ok wp) :
+    effstim E thr atol rtol o .photlam none none none = .ok (v * wp / (E.P.h * E.P.c)) := by
+  rw [effstim_converted_at_pivot E thr atol rtol o .photlam v wp bm hbm (by simp) hv hp, convert_flam_photlam]
+
+/-- PHOTNU: `v·λ_p/(hc)·λ_p²/c` -/
+theorem effstim_photnu_value (E : Env K) (thr atol rtol : K) (o : Obs K) (v wp : K) (bm : Tree K)
+    (hbm : o.band.model = .ok bm) (hv : effstim E thr atol rtol o .flam none none none = .ok v)
+    (hp : pivot E thr bm none = .ok wp) :
+    effstim E thr atol rtol o .photnu none none none = .ok (v * wp / (E.P.h * E.P.c) * wp ^ 2 / E.P.c) := by
+  rw [effstim_converted_at_pivot E thr atol rtol o .photnu v wp bm hbm (by simp) hv hp, convert_flam_photnu]
+
+/-- FNU: `v·λ_p²/c` -/
+theorem effstim_fnu_value (E : Env K) (hP : E.P.Pos) (thr atol rtol : K) (o : Obs K) (v wp : K) (bm : Tree K)
+    (hbm : o.band.model = .ok bm) (hv : effstim E thr atol rtol o .flam none none none = .ok v)
+    (hp : pivot E thr bm none = .ok wp) (hwp : wp ≠ 0) :
+    effstim E thr atol rtol o .fnu none none none = .ok (v * wp ^ 2 / E.P.c) := by
+  rw [effstim_converted_at_pivot E thr atol rtol o .fnu v wp bm hbm (by simp) hv hp, convert_flam_fnu hP wp v hwp]
+
+/-- Jy with prefix scale `s`: `v·λ_p²/c / (s·1e-23)` -/
+theorem effstim_jy_value (E : Env K) (hP : E.P.Pos) (thr atol rtol : K) (o : Obs K) (v wp s : K) (bm : Tree K)
+    (hbm : o.band.model = .ok bm) (hv : effstim E thr atol rtol o .flam none none none = .ok v)
+    (hp : pivot E thr bm none = .ok wp) (hwp : wp ≠ 0) :
+    effstim E thr atol rtol o (.jy s) none none none = .ok (v * wp ^ 2 / E.P.c / (s * E.P.jyFnu)) := by
+  rw [effstim_converted_at_pivot E thr atol rtol o (.jy s) v wp bm hbm
+    (Or.inr (Or.inr (Or.inr (Or.inr ⟨s, rfl⟩)))) hv hp, convert_flam_jy hP wp v s hwp]
+
+/-- ABmag: the magnitude of the FNU value over the AB zero-point flux -/
+theorem effstim_abmag_value (E : Env K) (hP : E.P.Pos) (thr atol rtol : K) (o : Obs K) (v wp : K) (bm : Tree K)
+    (hbm : o.band.model = .ok bm) (hv : effstim E thr atol rtol o .flam none none none = .ok v)
+    (hp : pivot E thr bm none = .ok wp) (hwp : wp ≠ 0) :
+    effstim E thr atol rtol o .abmag none none none = toMag E.T (v * wp ^ 2 / E.P.c / E.P.abZero) := by
+  rw [effstim_converted_at_pivot E thr atol rtol o .abmag v wp bm hbm (by simp) hv hp,
+    convert_flam_abmag hP wp v hwp]
+
+/-- STmag is `−2.5 log₁₀` of the FLAM result minus the zero point `zp` (`stZero = 10^(−0.4·zp)`, zp = 21.10) -/
+theorem effstim_stmag_of_flam (E : Env K) (hT : E.T.Lawful) (thr atol rtol : K) (o : Obs K) (v zp : K)
+    (hz : E.P.stZero = E.T.pow10 (-(2/5) * zp))
+    (hv : effstim E thr atol rtol o .flam none none none = .ok v) :
+    effstim E thr atol rtol o .stmag none none none = .ok (-(5/2) * E.T.log10 v - zp) := by
+  have hpos := effstim_flam_pos E thr atol rtol o none v hv
+  rw [effstim_stmag_def, hv, hz]
+  exact mag_is_log_of_linear E.T hT v zp hpos
+
+/-- ABmag is `−2.5 log₁₀` of the FNU result minus the zero point `zp` (`abZero = 10^(−0.4·zp)`, zp = 48.60) -/
+theorem effstim_abmag_of_fnu (E : Env K) (hP : E.P.Pos) (hT : E.T.Lawful) (thr atol rtol : K) (o : Obs K)
+    (v wp f zp : K) (bm : Tree K) (hz : E.P.abZero = E.T.pow10 (-(2/5) * zp))
+    (hbm : o.band.model = .ok bm) (hv : effstim E thr atol rtol o .flam none none none = .ok v)
+    (hp : pivot E thr bm none = .ok wp) (hwp : wp ≠ 0)
+    (hf : effstim E thr atol rtol o .fnu none none none = .ok f) :
+    effstim E thr atol rtol o .abmag none none none = .ok (-(5/2) * E.T.log10 f - zp) := by
+  have hpos := effstim_flam_pos E thr atol rtol o none v hv
+  rw [effstim_fnu_value E hP thr atol rtol o v wp bm hbm hv hp hwp] at hf
+  injection hf with hf
+  have hfpos : 0 < f := by
+    rw [← hf]; exact div_pos (mul_pos hpos (by positivity)) hP.c
+  rw [effstim_abmag_value E hP thr atol rtol o v wp bm hbm hv hp hwp, hf, hz]
+  exact mag_is_log_of_linear E.T hT f zp hfpos
+
+/-! ### flat spectra, end to end
+
+`o.model = ConstFlux1D(v, u) × bandpass`: the observation of a source whose flux is the constant `v` in
+unit `u`.  The hypotheses are what the computation needs: the bandpass has a sampling set `xb` (validated,
+hence positive wavelengths) with samples `yb`, `∫λP ≠ 0`, and — for the frequency-density units, whose
+result goes through the pivot wavelength — `∫P/λ ≠ 0`. -/
+
+section flat
+variable (E : Env K) (thr atol rtol : K) (o : Obs K) (v : K) (bm : Tree K) (xb yb : List K)
+
+/-- a spectrum flat at `v > 0` in FLAM has effective stimulus `v` FLAM -/
+theorem effstim_flat_flam_model (hP : E.P.Pos)
+    (hmodel : o.model = .bin .mul (.leaf (.constFlux v .flam)) bm) (hbm : o.band.model = .ok bm)
+    (hxb : wavesetOrErr thr bm = .ok xb) (hyb : sampleTree E bm xb = .ok yb)
+    (hv : 0 < v) (hB : trapz (timesLam (xb.zip yb)) ≠ 0) :
+    effstim E thr atol rtol o .flam none none none = .ok v := by
+  have hpos : ∀ p ∈ xb.zip yb, p.1 ≠ 0 := fun p hp => ne_of_gt (wavesetOrErr_pos hxb p.1 (List.of_mem_zip hp).1)
+  rw [effstim_flat_reduce E thr atol rtol o .flam IsDensity.flam v bm xb yb (fun x => v * x / (E.P.h * E.P.c))
+    hmodel hbm hxb hyb (fun x _ => rfl)]
+  obtain ⟨h1, h2⟩ := effstimFlam_flamlike E.P hP v hv (xb.zip yb) hpos hB
+  have hB' : 0 < |trapz (timesLam (xb.zip yb))| := abs_pos.mpr hB
+  unfold effstimOf
+  rw [if_neg (by rw [h1]; exact not_le.mpr (mul_pos hv hB')), if_neg (not_le.mpr hB')]
+  simp only [h2]
+
+/-- a spectrum flat at `m` STmag (any `m`) has effective stimulus `m` STmag -/
+theorem effstim_flat_stmag_model (hP : E.P.Pos) (hT : E.T.Lawful)
+    (hmodel : o.model = .bin .mul (.leaf (.constFlux v .stmag)) bm) (hbm : o.band.model = .ok bm)
+    (hxb : wavesetOrErr thr bm = .ok xb) (hyb : sampleTree E bm xb = .ok yb)
+    (hB : trapz (timesLam (xb.zip yb)) ≠ 0) :
+    effstim E thr atol rtol o .stmag none none none = .ok v := by
+  have hpos : ∀ p ∈ xb.zip yb, p.1 ≠ 0 := fun p hp => ne_of_gt (wavesetOrErr_pos hxb p.1 (List.of_mem_zip hp).1)
+  have ha : 0 < ofMag E.T v * E.P.stZero := mul_pos (ofMag_pos hT v) hP.st
+  rw [effstim_flat_reduce E thr atol rtol o .stmag IsDensity.stmag v bm xb yb
+    (fun x => ofMag E.T v * E.P.stZero * x / (E.P.h * E.P.c)) hmodel hbm hxb hyb (fun x _ => rfl)]
+  obtain ⟨h1, h2⟩ := effstimFlam_flamlike E.P hP _ ha (xb.zip yb) hpos hB
+  have hB' : 0 < |trapz (timesLam (xb.zip yb))| := abs_pos.mpr hB
+  unfold effstimOf
+  rw [if_neg (by rw [h1]; exact not_le.mpr (mul_pos ha hB')), if_neg (not_le.mpr hB')]
+  simp only [h2]
+  have hz := ne_of_gt hP.st
+  rw [toMag_congr (show ofMag E.T v * E.P.stZero / E.P.stZero = ofMag E.T v by field_simp), toMag_ofMag hT]
+
+/-- a spectrum flat at `v > 0` in FNU has effective stimulus `v` FNU -/
+theorem effstim_flat_fnu_model (hP : E.P.Pos) (hT : E.T.Lawful)
+    (hmodel : o.model = .bin .mul (.leaf (.constFlux v .fnu)) bm) (hbm : o.band.model = .ok bm)
+    (hxb : wavesetOrErr thr bm = .ok xb) (hyb : sampleTree E bm xb = .ok yb)
+    (hv : 0 < v) (hA : trapz (overLam (xb.zip yb)) ≠ 0) (hB : trapz (timesLam (xb.zip yb)) ≠ 0) :
+    effstim E thr atol rtol o .fnu none none none = .ok v := by
+  have hpos : ∀ p ∈ xb.zip yb, p.1 ≠ 0 := fun p hp => ne_of_gt (wavesetOrErr_pos hxb p.1 (List.of_mem_zip hp).1)
+  rw [effstim_flat_reduce E thr atol rtol o .fnu IsDensity.fnu v bm xb yb
+    (fun x => v * E.P.c / x ^ 2 * x / (E.P.h * E.P.c)) hmodel hbm hxb hyb (fun x _ => rfl)]
+  obtain ⟨h1, hne, h3⟩ := effstimFlam_fnulike E.P hP E.T hT v hv (xb.zip yb) hpos hA hB
+  have hA' : 0 < |trapz (overLam (xb.zip yb))| := abs_pos.mpr hA
+  have hB' : 0 < |trapz (timesLam (xb.zip yb))| := abs_pos.mpr hB
+  rw [effstimOf_pivot_branch E thr bm .fnu (Or.inl rfl),
+    if_neg (by rw [h1]; exact not_le.mpr (mul_pos (mul_pos hv hP.c) hA')), if_neg (not_le.mpr hB'),
+    pivot_eq E thr bm xb yb hxb hyb]
+  simp only [bind, Except.bind]
+  rw [convert_flam_fnu hP _ _ hne, h3]
+
+/-- a spectrum flat at `v > 0` in Jy (or a prefixed Jansky worth `s > 0` Jy) has effective stimulus `v` in that unit -/
+theorem effstim_flat_jy_model (hP : E.P.Pos) (hT : E.T.Lawful) (s : K) (hs : 0 < s)
+    (hmodel : o.model = .bin .mul (.leaf (.constFlux v (.jy s))) bm) (hbm : o.band.model = .ok bm)
+    (hxb : wavesetOrErr thr bm = .ok xb) (hyb : sampleTree E bm xb = .ok yb)
+    (hv : 0 < v) (hA : trapz (overLam (xb.zip yb)) ≠ 0) (hB : trapz (timesLam (xb.zip yb)) ≠ 0) :
+    effstim E thr atol rtol o (.jy s) none none none = .ok v := by
+  have hpos : ∀ p ∈ xb.zip yb, p.1 ≠ 0 := fun p hp => ne_of_gt (wavesetOrErr_pos hxb p.1 (List.of_mem_zip hp).1)
+  have hb : 0 < v * s * E.P.jyFnu := mul_pos (mul_pos hv hs) hP.jy
+  rw [effstim_flat_reduce E thr atol rtol o (.jy s) (IsDensity.jy s) v bm xb yb
+    (fun x => v * s * E.P.jyFnu * E.P.c / x ^ 2 * x / (E.P.h * E.P.c)) hmodel hbm hxb hyb (fun x _ => rfl)]
+  obtain ⟨h1, hne, h3⟩ := effstimFlam_fnulike E.P hP E.T hT _ hb (xb.zip yb) hpos hA hB
+  have hA' : 0 < |trapz (overLam (xb.zip yb))| := abs_pos.mpr hA
+  have hB' : 0 < |trapz (timesLam (xb.zip yb))| := abs_pos.mpr hB
+  rw [effstimOf_pivot_branch E thr bm (.jy s) (Or.inr (Or.inr (Or.inr (Or.inr ⟨s, rfl⟩)))),
+    if_neg (by rw [h1]; exact not_le.mpr (mul_pos (mul_pos hb hP.c) hA')), if_neg (not_le.mpr hB'),
+    pivot_eq E thr bm xb yb hxb hyb]
+  simp only [bind, Except.bind]
+  rw [convert_flam_jy hP _ _ s hne, h3]
+  have h1 := ne_of_gt hs; have h2 := ne_of_gt hP.jy
+  congr 1; field_simp
+
+/-- a spectrum flat at `m` ABmag (any `m`) has effective stimulus `m` ABmag -/
+theorem effstim_flat_abmag_model (hP : E.P.Pos) (hT : E.T.Lawful)
+    (hmodel : o.model = .bin .mul (.leaf (.constFlux v .abmag)) bm) (hbm : o.band.model = .ok bm)
+    (hxb : wavesetOrErr thr bm = .ok xb) (hyb : sampleTree E bm xb = .ok yb)
+    (hA : trapz (overLam (xb.zip yb)) ≠ 0) (hB : trapz (timesLam (xb.zip yb)) ≠ 0) :
+    effstim E thr atol rtol o .abmag none none none = .ok v := by
+  have hpos : ∀ p ∈ xb.zip yb, p.1 ≠ 0 := fun p hp => ne_of_gt (wavesetOrErr_pos hxb p.1 (List.of_mem_zip hp).1)
+  have hb : 0 < ofMag E.T v * E.P.abZero := mul_pos (ofMag_pos hT v) hP.ab
+  rw [effstim_flat_reduce E thr atol rtol o .abmag IsDensity.abmag v bm xb yb
+    (fun x => ofMag E.T v * E.P.abZero * E.P.c / x ^ 2 * x / (E.P.h * E.P.c)) hmodel hbm hxb hyb (fun x _ => rfl)]
+  obtain ⟨h1, hne, h3⟩ := effstimFlam_fnulike E.P hP E.T hT _ hb (xb.zip yb) hpos hA hB
+  have hA' : 0 < |trapz (overLam (xb.zip yb))| := abs_pos.mpr hA
+  have hB' : 0 < |trapz (timesLam (xb.zip yb))| := abs_pos.mpr hB
+  rw [effstimOf_pivot_branch E thr bm .abmag (Or.inr (Or.inr (Or.inr (Or.inl rfl)))),
+    if_neg (by rw [h1]; exact not_le.mpr (mul_pos (mul_pos hb hP.c) hA')), if_neg (not_le.mpr hB'),
+    pivot_eq E thr bm xb yb hxb hyb]
+  simp only [bind, Except.bind]
+  rw [convert_flam_abmag hP _ _ hne, h3]
+  have hz := ne_of_gt hP.ab
+  rw [toMag_congr (show ofMag E.T v * E.P.abZero / E.P.abZero = ofMag E.T v by field_simp), toMag_ofMag hT]
+
+end flat
+
+/-! non-vacuity: the box bandpass `Witness.band` (height 1 on [1, 5], sampled at 2 and 4: `∫λP = 6`,
+`∫P/λ = 3/4`), constants all 1, real transcendental functions -/
+
+section witness
+open Witness
+
+/-- the environment of the examples that need lawful transcendental functions -/
+noncomputable def wE : Env ℝ := ⟨Witness.phys, Transc.real⟩
+
+example (E : Env K) (hP : E.P.Pos) (thr atol rtol : K) :
+    effstim E thr atol rtol (obs (.leaf (.constFlux 3 .flam))) .flam none none none = .ok 3 :=
+  effstim_flat_flam_model E thr atol rtol _ 3 band [2, 4] [1, 1] hP rfl rfl (band_waveset thr) (band_samples E)
+    (by norm_num) (by rw [band_B]; norm_num)
+
+example (thr atol rtol m : ℝ) :
+    effstim wE thr atol rtol (obs (.leaf (.constFlux m .stmag))) .stmag none none none = .ok m :=
+  effstim_flat_stmag_model wE thr atol rtol _ m band [2, 4] [1, 1] phys_pos Transc.real_lawful rfl rfl
+    (band_waveset thr) (band_samples wE) (by rw [band_B]; norm_num)
+
+example (thr atol rtol : ℝ) :
+    effstim wE thr atol rtol (obs (.leaf (.constFlux 3 .fnu))) .fnu none none none = .ok 3 :=
+  effstim_flat_fnu_model wE thr atol rtol _ 3 band [2, 4] [1, 1] phys_pos Transc.real_lawful rfl rfl
+    (band_waveset thr) (band_samples wE) (by norm_num) (by rw [band_A]; norm_num) (by rw [band_B]; norm_num)
+
+example (thr atol rtol : ℝ) :
+    effstim wE thr atol rtol (obs (.leaf (.constFlux 3 (.jy (1 / 1000))))) (.jy (1 / 1000)) none none none = .ok 3 :=
+  effstim_flat_jy_model wE thr atol rtol _ 3 band [2, 4] [1, 1] phys_pos Transc.real_lawful (1 / 1000) (by norm_num)
+    rfl rfl (band_waveset thr) (band_samples wE) (by norm_num) (by rw [band_A]; norm_num) (by rw [band_B]; norm_num)
+
+example (thr atol rtol m : ℝ) :
+    effstim wE thr atol rtol (obs (.leaf (.constFlux m .abmag))) .abmag none none none = .ok m :=
+  effstim_flat_abmag_model wE thr atol rtol _ m band [2, 4] [1, 1] phys_pos Transc.real_lawful rfl rfl
+    (band_waveset thr) (band_samples wE) (by rw [band_A]; norm_num) (by rw [band_B]; norm_num)
+
+/-- the flat-FLAM observation of the examples below: FLAM effective stimulus 3, pivot `sqrt 8 ≠ 0` -/
+theorem wFlat_flam (thr atol rtol : ℝ) :
+    effstim wE thr atol rtol (obs (.leaf (.constFlux 3 .flam))) .flam none none none = .ok 3 :=
+  effstim_flat_flam_model wE thr atol rtol _ 3 band [2, 4] [1, 1] phys_pos rfl rfl (band_waveset thr)
+    (band_samples wE) (by norm_num) (by rw [band_B]; norm_num)
+
+theorem wPivot (thr : ℝ) : pivot wE thr band none = .ok (Real.sqrt 8) := by
+  rw [pivot_def wE thr _ _ _ (band_waveset thr) (band_samples wE), band_A, band_B, if_neg (by norm_num)]
+  norm_num [wE]
+
+theorem wPivot_ne : Real.sqrt 8 ≠ 0 := by
+  rw [Ne, Real.sqrt_eq_zero (by norm_num)]; norm_num
+
+example (thr atol rtol : ℝ) : (0 : ℝ) < 3 := effstim_flam_pos wE thr atol rtol _ none 3 (wFlat_flam thr atol rtol)
+
+example (thr atol rtol : ℝ) :
+    effstim wE thr atol rtol (obs (.leaf (.constFlux 3 .flam))) .stmag none none none =
+      convertOne wE.P wE.T (plainSamp (Real.sqrt 8)) .flam .stmag 3 :=
+  effstim_stmag_converted_at_pivot wE phys_pos thr atol rtol _ 3 _ (wFlat_flam thr atol rtol) wPivot_ne
+
+example (thr atol rtol : ℝ) :
+    effstim wE thr atol rtol (obs (.leaf (.constFlux 3 .flam))) .stmag none none none =
+      toMag wE.T (3 / wE.P.stZero) := by
+  rw [effstim_stmag_def, wFlat_flam]; rfl
+
+example (thr atol rtol : ℝ) :
+    effstim wE thr atol rtol (obs (.leaf (.constFlux 3 .flam))) .photlam none none none =
+      .ok (3 * Real.sqrt 8 / (wE.P.h * wE.P.c)) :=
+  effstim_photlam_value wE thr atol rtol _ 3 _ band rfl (wFlat_flam thr atol rtol) (wPivot thr)
+
+example (thr atol rtol : ℝ) :
+    effstim wE thr atol rtol (obs (.leaf (.constFlux 3 .flam))) .photnu none none none =
+      .ok (3 * Real.sqrt 8 / (wE.P.h * wE.P.c) * Real.sqrt 8 ^ 2 / wE.P.c) :=
+  effstim_photnu_value wE thr atol rtol _ 3 _ band rfl (wFlat_flam thr atol rtol) (wPivot thr)
+
+example (thr atol rtol : ℝ) :
+    effstim wE thr atol rtol (obs (.leaf (.constFlux 3 .flam))) .fnu none none none =
+      .ok (3 * Real.sqrt 8 ^ 2 / wE.P.c) :=
+  effstim_fnu_value wE phys_pos thr atol rtol _ 3 _ band rfl (wFlat_flam thr atol rtol) (wPivot thr) wPivot_ne
+
+example (thr atol rtol : ℝ) :
+    effstim wE thr atol rtol (obs (.leaf (.constFlux 3 .flam))) (.jy 1) none none none =
+      .ok (3 * Real.sqrt 8 ^ 2 / wE.P.c / (1 * wE.P.jyFnu)) :=
+  effstim_jy_value wE phys_pos thr atol rtol _ 3 _ 1 band rfl (wFlat_flam thr atol rtol) (wPivot thr) wPivot_ne
+
+example (thr atol rtol : ℝ) :
+    effstim wE thr atol rtol (obs (.leaf (.constFlux 3 .flam))) .abmag none none none =
+      toMag wE.T (3 * Real.sqrt 8 ^ 2 / wE.P.c / wE.P.abZero) :=
+  effstim_abmag_value wE phys_pos thr atol rtol _ 3 _ band rfl (wFlat_flam thr atol rtol) (wPivot thr) wPivot_ne
+
+/-- with all constants 1 the zero points are `10^0`, i.e. `zp = 0` -/
+example (thr atol rtol : ℝ) :
+    effstim wE thr atol rtol (obs (.leaf (.constFlux 3 .flam))) .stmag none none none =
+      .ok (-(5/2) * wE.T.log10 3 - 0) :=
+  effstim_stmag_of_flam wE Transc.real_lawful thr atol rtol _ 3 0 (by simp [wE, Witness.phys]) (wFlat_flam thr atol rtol)
+
+example (thr atol rtol : ℝ) :
+    effstim wE thr atol rtol (obs (.leaf (.constFlux 3 .flam))) .abmag none none none =
+      .ok (-(5/2) * wE.T.log10 (3 * Real.sqrt 8 ^ 2 / wE.P.c) - 0) :=
+  effstim_abmag_of_fnu wE phys_pos Transc.real_lawful thr atol rtol _ 3 (Real.sqrt 8) _ 0 band
+    (by simp [wE, Witness.phys]) rfl (wFlat_flam thr atol rtol) (wPivot thr) wPivot_ne
+    (effstim_fnu_value wE phys_pos thr atol rtol _ 3 _ band rfl (wFlat_flam thr atol rtol) (wPivot thr) wPivot_ne)
+
+end witness
+
+/-! ### flat spectra on a common grid, the remaining units (list forms, companions of `effstim_flat_flam/fnu`) -/
+
+/-- flat at `v > 0` in Jy (`j` = 1 Jy in FNU, `s` the prefix scale): FLAM samples `v·s·j·c/λ²·P`; the FLAM
+effective stimulus converted to that unit at the pivot is `v` -/
+theorem effstim_flat_jy (band : List (K × K)) (v c s j : K) (hv : 0 < v) (hc : 0 < c) (hs : 0 < s) (hj : 0 < j)
+    (hpos : ∀ p ∈ band, p.1 ≠ 0) (hA : trapz (overLam band) ≠ 0) (hB : trapz (timesLam band) ≠ 0) :
+    effstimFlam (band.map fun p => (p.1, v * s * j * c / p.1 ^ 2 * p.2)) band *
+      |trapz (timesLam band) / trapz (overLam band)| / c / (s * j) = v := by
+  rw [effstim_flat_fnu band (v * s * j) c (mul_pos (mul_pos hv hs) hj) hc hpos hA hB]
+  have := ne_of_gt hs; have := ne_of_gt hj
+  field_simp
+
+/-- flat at `m` STmag (`z` = flux of STmag 0 in FLAM): FLAM samples `10^(−0.4m)·z·P`; the magnitude of the FLAM
+effective stimulus over `z` is `m` -/
+theorem effstim_flat_stmag (T : Transc K) (hT : T.Lawful) (band : List (K × K)) (m z : K) (hz : 0 < z)
+    (hB : trapz (timesLam band) ≠ 0) :
+    toMag T (effstimFlam (band.map fun p => (p.1, ofMag T m * z * p.2)) band / z) = .ok m := by
+  rw [effstim_flat_flam band (ofMag T m * z) (mul_pos (ofMag_pos hT m) hz) hB]
+  have := ne_of_gt hz
+  rw [toMag_congr (show ofMag T m * z / z = ofMag T m by field_simp), toMag_ofMag hT]
+
+/-- flat at `m` ABmag (`z` = flux of ABmag 0 in FNU): FLAM samples `10^(−0.4m)·z·c/λ²·P`; the magnitude of the
+FLAM effective stimulus converted to FNU at the pivot, over `z`, is `m` -/
+theorem effstim_flat_abmag (T : Transc K) (hT : T.Lawful) (band : List (K × K)) (m z c : K) (hz : 0 < z) (hc : 0 < c)
+    (hpos : ∀ p ∈ band, p.1 ≠ 0) (hA : trapz (overLam band) ≠ 0) (hB : trapz (timesLam band) ≠ 0) :
+    toMag T (effstimFlam (band.map fun p => (p.1, ofMag T m * z * c / p.1 ^ 2 * p.2)) band *
+      |trapz (timesLam band) / trapz (overLam band)| / c / z) = .ok m := by
+  rw [effstim_flat_fnu band (ofMag T m * z) c (mul_pos (ofMag_pos hT m) hz) hc hpos hA hB]
+  have := ne_of_gt hz
+  rw [toMag_congr (show ofMag T m * z / z = ofMag T m by field_simp), toMag_ofMag hT]
+
+section witness2
+private theorem wl_pos : ∀ p ∈ ([(2, 1), (4, 1)] : List (ℝ × ℝ)), p.1 ≠ 0 := by
+  intro p hp; simp only [List.mem_cons, List.not_mem_nil, or_false] at hp
+  rcases hp with rfl | rfl <;> norm_num
+private theorem wl_A : trapz (overLam ([(2, 1), (4, 1)] : List (ℝ × ℝ))) ≠ 0 := by
+  have := Witness.band_A (K := ℝ); simp only [List.zip_cons_cons, List.zip_nil_right] at this; rw [this]; norm_num
+private theorem wl_B : trapz (timesLam ([(2, 1), (4, 1)] : List (ℝ × ℝ))) ≠ 0 := by
+  have := Witness.band_B (K := ℝ); simp only [List.zip_cons_cons, List.zip_nil_right] at this; rw [this]; norm_num
+
+example : effstimFlam (([(2, 1), (4, 1)] : List (ℝ × ℝ)).map fun p => (p.1, 3 * (1/1000) * 7 * 5 / p.1 ^ 2 * p.2))
+      [(2, 1), (4, 1)] * |trapz (timesLam ([(2, 1), (4, 1)] : List (ℝ × ℝ))) / trapz (overLam [(2, 1), (4, 1)])| / 5 /
+      ((1/1000) * 7) = 3 :=
+  effstim_flat_jy _ 3 5 (1/1000) 7 (by norm_num) (by norm_num) (by norm_num) (by norm_num) wl_pos wl_A wl_B
+example (m : ℝ) : toMag Transc.real
+    (effstimFlam (([(2, 1), (4, 1)] : List (ℝ × ℝ)).map fun p => (p.1, ofMag Transc.real m * 7 * p.2)) [(2, 1), (4, 1)] / 7)
+      = .ok m :=
+  effstim_flat_stmag Transc.real Transc.real_lawful _ m 7 (by norm_num) wl_B
+example (m : ℝ) : toMag Transc.real
+    (effstimFlam (([(2, 1), (4, 1)] : List (ℝ × ℝ)).map fun p => (p.1, ofMag Transc.real m * 7 * 5 / p.1 ^ 2 * p.2))
+      [(2, 1), (4, 1)] * |trapz (timesLam ([(2, 1), (4, 1)] : List (ℝ × ℝ))) / trapz (overLam [(2, 1), (4, 1)])| / 5 / 7)
+      = .ok m :=
+  effstim_flat_abmag Transc.real Transc.real_lawful _ m 7 5 (by norm_num) (by norm_num) wl_pos wl_A wl_B
+end witness2
+
+/-! ### scale laws, end to end
+
+`o'` observes, through the same bandpass, a source whose model samples are `k` times those of `o`'s
+(errors included) on the same sampling set. -/
+
+section scale
+variable (E : Env K) (thr atol rtol : K) (o o' : Obs K) (k : K) (wl : Option (List K))
+
+/-- every linear density unit (FLAM, FNU, PHOTLAM, PHOTNU, Jy with any prefix): the result is multiplied by
+`k > 0`; a failing call fails in the same way -/
+theorem effstim_scale_linear_model (u : FluxUnit K)
+    (hu : u = .flam ∨ u = .fnu ∨ u = .photlam ∨ u = .photnu ∨ ∃ s, u = .jy s) (hk : 0 < k)
+    (hband : o'.band.model = o.band.model) (hw : wavesetOrErr thr o'.model = wavesetOrErr thr o.model)
+    (hs : ∀ x, sampleTree E o'.model x = (sampleTree E o.model x).map (List.map (k * ·))) :
+    effstim E thr atol rtol o' u wl none none = (effstim E thr atol rtol o u wl none none).map (k * ·) := by
+  have hd : IsDensity u := by
+    rcases hu with rfl | rfl | rfl | rfl | ⟨s, rfl⟩
+    exacts [IsDensity.flam, IsDensity.fnu, IsDensity.photlam, IsDensity.photnu, IsDensity.jy s]
+  have hwl : wavelengthsOr thr o'.model wl = wavelengthsOr thr o.model wl := by
+    cases wl with
+    | none => exact hw
+    | some w => rfl
+  rw [effstim_pipeline E thr atol rtol o' u hd, effstim_pipeline E thr atol rtol o u hd, hband, hwl]
+  simp only [bind, Except.bind]
+  cases o.band.model <;> simp only [Except.map]
+  rename_i bm
+  cases wavelengthsOr thr bm wl <;> simp only []
+  rename_i xb
+  cases sampleTree E bm xb <;> simp only []
+  rename_i yb
+  cases wavelengthsOr thr o.model wl <;> simp only []
+  rename_i inw
+  rw [hs inw]
+  cases sampleTree E o.model inw <;> simp only [Except.map]
+  rename_i inp
+  rw [zip_scale]
+  exact effstimOf_scale_linear E thr bm u hu _ _ k hk
+
+/-- STmag and ABmag: the result is shifted by `−2.5 log₁₀ k`; a failing call fails in the same way -/
+theorem effstim_scale_mag_model (hT : E.T.Lawful) (u : FluxUnit K) (hu : u = .stmag ∨ u = .abmag) (hk : 0 < k)
+    (hband : o'.band.model = o.band.model) (hw : wavesetOrErr thr o'.model = wavesetOrErr thr o.model)
+    (hs : ∀ x, sampleTree E o'.model x = (sampleTree E o.model x).map (List.map (k * ·))) :
+    effstim E thr atol rtol o' u wl none none =
+      (effstim E thr atol rtol o u wl none none).map (· - (5/2) * E.T.log10 k) := by
+  have hd : IsDensity u := by
+    rcases hu with rfl | rfl
+    exacts [IsDensity.stmag, IsDensity.abmag]
+  have hwl : wavelengthsOr thr o'.model wl = wavelengthsOr thr o.model wl := by
+    cases wl with
+    | none => exact hw
+    | some w => rfl
+  rw [effstim_pipeline E thr atol rtol o' u hd, effstim_pipeline E thr atol rtol o u hd, hband, hwl]
+  simp only [bind, Except.bind]
+  cases o.band.model <;> simp only [Except.map]
+  rename_i bm
+  cases wavelengthsOr thr bm wl <;> simp only []
+  rename_i xb
+  cases sampleTree E bm xb <;> simp only []
+  rename_i yb
+  cases wavelengthsOr thr o.model wl <;> simp only []
+  rename_i inw
+  rw [hs inw]
+  cases sampleTree E o.model inw <;> simp only [Except.map]
+  rename_i inp
+  rw [zip_scale]
+  exact effstimOf_scale_mag E hT thr bm u hu _ _ k hk
+
+/-- the hypotheses hold for `source * k` (`sm | Scale(k)`) observed through the same bandpass -/
+theorem scaled_source_samples (sm bm : Tree K)
+    (hm : o.model = .bin .mul sm bm) (hm' : o'.model = .bin .mul (.scale sm k) bm) :
+    wavesetOrErr thr o'.model = wavesetOrErr thr o.model ∧
+    ∀ x, sampleTree E o'.model x = (sampleTree E o.model x).map (List.map (k * ·)) := by
+  rw [hm, hm']
+  exact ⟨wavesetOrErr_congr (sampleset_scaled_source thr k sm bm), sampleTree_scaled_source E sm bm k⟩
+
+end scale
+
+/-- non-vacuity: FLAM 3 becomes 2·3, STmag `m` becomes `m − 2.5 log₁₀ 2` -/
+example (thr atol rtol : ℝ) :
+    effstim wE thr atol rtol (Witness.obs (.scale (.leaf (.constFlux 3 .flam)) 2)) .flam none none none = .ok (2 * 3) := by
+  obtain ⟨hw, hs⟩ := scaled_source_samples wE thr (Witness.obs (.leaf (.constFlux 3 .flam)))
+    (Witness.obs (.scale (.leaf (.constFlux 3 .flam)) 2)) 2 _ Witness.band rfl rfl
+  rw [effstim_scale_linear_model wE thr atol rtol (Witness.obs (.leaf (.constFlux 3 .flam)))
+    (Witness.obs (.scale (.leaf (.constFlux 3 .flam)) 2)) 2 none .flam (Or.inl rfl) (by norm_num) rfl hw hs, wFlat_flam]
+  rfl
+
+example (thr atol rtol : ℝ) :
+    effstim wE thr atol rtol (Witness.obs (.scale (.leaf (.constFlux 3 .flam)) 2)) .stmag none none none =
+      .ok (-(5/2) * wE.T.log10 3 - 0 - (5/2) * wE.T.log10 2) := by
+  obtain ⟨hw, hs⟩ := scaled_source_samples wE thr (Witness.obs (.leaf (.constFlux 3 .flam)))
+    (Witness.obs (.scale (.leaf (.constFlux 3 .flam)) 2)) 2 _ Witness.band rfl rfl
+  rw [effstim_scale_mag_model wE thr atol rtol (Witness.obs (.leaf (.constFlux 3 .flam)))
+    (Witness.obs (.scale (.leaf (.constFlux 3 .flam)) 2)) 2 none Transc.real_lawful .stmag (Or.inl rfl) (by norm_num) rfl hw hs,
+    effstim_stmag_of_flam wE Transc.real_lawful thr atol rtol _ 3 0 (by simp [wE, Witness.phys]) (wFlat_flam thr atol rtol)]
+  rfl
+
+/-! ### effective wavelength -/
+
+section efflam
+variable (E : Env K) (thr atol rtol : K) (o o' : Obs K) (binned : Bool) (wl : Option (List K)) (erg : Bool)
+
+/-- [definition, every stage] `effective_wavelength(binned, wavelengths, mode)`: the grid (`efflamGrid`: the
+caller's validated wavelengths, else `binset` / the native sampling set), the PHOTLAM samples there
+(`efflamSamples`: `sample_binned` / the model), FLAM for 'efflerg', then `efflamOf`; a failing stage fails the call -/
+theorem efflam_def :
+    effectiveWavelength E thr atol rtol o binned wl erg =
+      (efflamGrid thr o binned wl >>= fun x => efflamSamples E atol rtol o binned x >>= fun yp =>
+        .ok (efflamOf (if erg then toFlam E.P (x.zip yp) else x.zip yp))) :=
+  efflam_pipeline E thr atol rtol o binned wl erg
+
+/-- [the defining formula] with grid `x` and samples `yp`, `F` the samples in the requested flux convention
+(FLAM for 'efflerg', PHOTLAM for 'efflphot'): the result is `|trapz(F·λ²) / trapz(F·λ)|`, and 0 when the
+denominator vanishes -/
+theorem efflam_value (x yp : List K) (hx : efflamGrid thr o binned wl = .ok x)
+    (hyp : efflamSamples E atol rtol o binned x = .ok yp) :
+    effectiveWavelength E thr atol rtol o binned wl erg =
+      .ok (if trapz (timesLam (if erg then toFlam E.P (x.zip yp) else x.zip yp)) = 0 then 0
+        else |trapz (timesLamSq (if erg then toFlam E.P (x.zip yp) else x.zip yp)) /
+              trapz (timesLam (if erg then toFlam E.P (x.zip yp) else x.zip yp))|) := by
+  rw [efflam_def, hx]; simp only [bind, Except.bind, hyp]; rfl
+
+/-- multiplying the source by `k ≠ 0` (same grid, samples `k` times as large, errors included) leaves the
+effective wavelength unchanged — binned or not, either convention -/
+theorem efflam_scale_invariant (k : K) (hk : k ≠ 0)
+    (hg : efflamGrid thr o' binned wl = efflamGrid thr o binned wl)
+    (hs : ∀ x, efflamSamples E atol rtol o' binned x = (efflamSamples E atol rtol o binned x).map (List.map (k * ·))) :
+    effectiveWavelength E thr atol rtol o' binned wl erg = effectiveWavelength E thr atol rtol o binned wl erg := by
+  rw [efflam_def, efflam_def, hg]
+  simp only [bind, Except.bind]
+  cases efflamGrid thr o binned wl <;> simp only []
+  rename_i x
+  rw [hs x]
+  cases efflamSamples E atol rtol o binned x <;> simp only [Except.map]
+  rename_i yp
+  rw [zip_scale]
+  cases erg
+  · simp only [Bool.false_eq_true, if_false, efflamOf_scaleY k hk]
+  · simp only [if_true, toFlam_scaleY, efflamOf_scaleY k hk]
+
+/-- in particular for `source * k` observed unbinned through the same bandpass -/
+theorem efflam_scaled_source (k : K) (hk : k ≠ 0) (sm bm : Tree K)
+    (hm : o.model = .bin .mul sm bm) (hm' : o'.model = .bin .mul (.scale sm k) bm) :
+    effectiveWavelength E thr atol rtol o' false wl erg = effectiveWavelength E thr atol rtol o false wl erg := by
+  obtain ⟨hw, hs⟩ := scaled_source_samples E thr o o' k sm bm hm hm'
+  apply efflam_scale_invariant E thr atol rtol o o' false wl erg k hk
+  · cases wl with
+    | none => exact hw
+    | some w => rfl
+  · exact hs
+
+/-- sampling at the same wavelengths in the opposite order gives the same effective wavelength
+(`validate_wavelengths` accepts descending arrays; both integrals change sign) -/
+theorem efflam_reverse_invariant (w yp : List K) (hyp : sampleTree E o.model w = .ok yp) :
+    effectiveWavelength E thr atol rtol o false (some w.reverse) erg =
+      effectiveWavelength E thr atol rtol o false (some w) erg := by
+  have hlen := (sampleTree_length E o.model w yp hyp).symm
+  rw [efflam_def, efflam_def]
+  simp only [efflamGrid, efflamSamples, wavelengthsOr, Bool.false_eq_true, if_false, bind, Except.bind, pure,
+    Except.pure, validate_reverse]
+  cases validateWavelengths w <;> simp only []
+  rw [sampleTree_reverse E o.model w yp hyp, hyp]
+  simp only [zip_reverse_eq w yp hlen]
+  cases erg
+  · simp only [Bool.false_eq_true, if_false, efflamOf_reverse]
+  · simp only [if_true, toFlam_reverse, efflamOf_reverse]
+
+/-- for non-negative samples on an ascending grid of positive wavelengths the effective wavelength lies
+between any bounds `lo ≤ hi` of the sampled wavelengths (in particular the first and the last) -/
+theorem efflam_in_range_model (hP : E.P.Pos) (x yp : List K) (lo hi r : K)
+    (hx : efflamGrid thr o binned wl = .ok x) (hyp : efflamSamples E atol rtol o binned x = .ok yp)
+    (hasc : AscX (x.zip yp)) (hrange : ∀ p ∈ x.zip yp, lo ≤ p.1 ∧ p.1 ≤ hi) (hlo : 0 < lo)
+    (hy : ∀ p ∈ x.zip yp, 0 ≤ p.2)
+    (hden : trapz (timesLam (if erg then toFlam E.P (x.zip yp) else x.zip yp)) ≠ 0)
+    (hr : effectiveWavelength E thr atol rtol o binned wl erg = .ok r) : lo ≤ r ∧ r ≤ hi := by
+  rw [efflam_def, hx] at hr
+  simp only [bind, Except.bind, hyp] at hr
+  injection hr with hr
+  rw [← hr]
+  cases erg
+  · simp only [Bool.false_eq_true, if_false] at hden ⊢
+    exact efflamOf_in_range _ lo hi hasc hrange (le_of_lt hlo) hy hden
+  · simp only [if_true] at hden ⊢
+    apply efflamOf_in_range _ lo hi (ascX_map _ _ hasc) _ (le_of_lt hlo) _ hden
+    · intro p hp
+      simp only [toFlam, List.mem_map] at hp
+      obtain ⟨p', hp', rfl⟩ := hp
+      exact hrange p' hp'
+    · intro p hp
+      simp only [toFlam, List.mem_map] at hp
+      obtain ⟨p', hp', rfl⟩ := hp
+      exact div_nonneg (mul_nonneg (hy p' hp') (le_of_lt (mul_pos hP.h hP.c)))
+        (le_of_lt (lt_of_lt_of_le hlo (hrange p' hp').1))
+
+end efflam
+
+/-! non-vacuity: the observation of a flat-FLAM source through `Witness.band`, unbinned: grid `[2, 4]`,
+PHOTLAM samples `[3·2/(1·1)·1, 3·4/(1·1)·1]` -/
+section witness3
+open Witness
+
+theorem wGrid (thr : ℝ) : efflamGrid thr (obs (.leaf (.constFlux 3 .flam))) false none = .ok [2, 4] := by
+  simp only [efflamGrid, wavelengthsOr, Bool.false_eq_true, if_false]
+  exact (wavesetOrErr_congr (sampleset_constFlux_mul thr 3 .flam band)).trans (band_waveset thr)
+
+theorem wSamples (atol rtol : ℝ) :
+    efflamSamples wE atol rtol (obs (.leaf (.constFlux 3 .flam))) false [2, 4] =
+      .ok (([2, 4] : List ℝ).zip [1, 1] |>.map fun p => 3 * p.1 / (wE.P.h * wE.P.c) * p.2) := by
+  simp only [efflamSamples, Bool.false_eq_true, if_false]
+  exact sampleTree_constFlux_mul wE 3 .flam band (fun x => 3 * x / (wE.P.h * wE.P.c)) [2, 4] [1, 1] (fun x _ => rfl)
+    (band_samples wE)
+
+/-- the effective wavelength of that observation is 10/3 (FLAM samples 3, 3 at 2 and 4: `∫Fλ² = 60`, `∫Fλ = 18`) -/
+theorem wEfflam (thr atol rtol : ℝ) :
+    effectiveWavelength wE thr atol rtol (obs (.leaf (.constFlux 3 .flam))) false none true = .ok (10 / 3) := by
+  rw [efflam_value wE thr atol rtol _ false none true _ _ (wGrid thr) (wSamples atol rtol)]
+  norm_num [wE, phys, toFlam, timesLam, timesLamSq, trapz]
+
+example (thr atol rtol : ℝ) :
+    effectiveWavelength wE thr atol rtol (obs (.leaf (.constFlux 3 .flam))) false none true =
+      (efflamGrid thr (obs (.leaf (.constFlux 3 .flam))) false none >>= fun x =>
+        efflamSamples wE atol rtol (obs (.leaf (.constFlux 3 .flam))) false x >>= fun yp =>
+          .ok (efflamOf (if true then toFlam wE.P (x.zip yp) else x.zip yp))) :=
+  efflam_def wE thr atol rtol _ false none true
+
+example (thr atol rtol : ℝ) :
+    effectiveWavelength wE thr atol rtol (obs (.scale (.leaf (.constFlux 3 .flam)) (-7))) false none true =
+      effectiveWavelength wE thr atol rtol (obs (.leaf (.constFlux 3 .flam))) false none true :=
+  efflam_scaled_source wE thr atol rtol (obs (.leaf (.constFlux 3 .flam))) (obs (.scale (.leaf (.constFlux 3 .flam)) (-7)))
+    none true (-7) (by norm_num) _ band rfl rfl
+
+example (thr atol rtol : ℝ) :
+    effectiveWavelength wE thr atol rtol (obs (.leaf (.constFlux 3 .flam))) false (some ([2, 4] : List ℝ).reverse) true =
+      effectiveWavelength wE thr atol rtol (obs (.leaf (.constFlux 3 .flam))) false (some [2, 4]) true :=
+  efflam_reverse_invariant wE thr atol rtol _ true [2, 4] _ (by have := wSamples atol rtol; simpa [efflamSamples] using this)
+
+example (thr atol rtol : ℝ) : (2 : ℝ) ≤ 10 / 3 ∧ (10 / 3 : ℝ) ≤ 4 := by
+  refine efflam_in_range_model wE thr atol rtol (obs (.leaf (.constFlux 3 .flam))) false none true phys_pos [2, 4] _ 2 4
+    (10 / 3) (wGrid thr) (wSamples atol rtol) ?_ ?_ (by norm_num) ?_ ?_ (wEfflam thr atol rtol)
+  · simp only [List.zip_cons_cons, List.zip_nil_right, List.map_cons, List.map_nil, AscX]; norm_num
+  · intro p hp
+    simp only [List.zip_cons_cons, List.zip_nil_right, List.map_cons, List.map_nil, List.mem_cons,
+      List.not_mem_nil, or_false] at hp
+    rcases hp with rfl | rfl <;> norm_num
+  · intro p hp
+    simp only [List.zip_cons_cons, List.zip_nil_right, List.map_cons, List.map_nil, List.mem_cons,
+      List.not_mem_nil, or_false] at hp
+    rcases hp with rfl | rfl <;> norm_num [wE, phys]
+  · norm_num [wE, phys, toFlam, timesLam, trapz]
+
+end witness3
+
+end round2
 
 end Synphot.C09
